@@ -45,6 +45,8 @@ func runC03(c *Config, r *Report) {
 	if x.readTables() {
 		x.r1()
 		x.folders("R03.1")
+		x.r12()
+		x.r13()
 	}
 	c03R2(ic, r)
 	c03R3(ic, r)
